@@ -168,6 +168,7 @@ def main():
         for k, v in (e.get("classes") or {}).items():
             classes[k] = classes.get(k, 0) + v
     if not replay:
+        evdir = os.path.join(ROOT, "evidence") if not os.environ.get("VERIF_REPO") else os.path.join(ROOT, ".build", "evidence-other-tree")  # committed evidence is about /repo only
         evidence = {
             "property_id": pid, "tier": tier, "seed": seed, "level": "exploration",
             "coverage": {
@@ -183,10 +184,10 @@ def main():
         }
         if infra:
             evidence["coverage"]["infrastructure_problems"] = infra
-        os.makedirs(os.path.join(ROOT, "evidence"), exist_ok=True)
-        tmp = os.path.join(ROOT, "evidence", pid + ".json.tmp")
+        os.makedirs(evdir, exist_ok=True)
+        tmp = os.path.join(evdir, pid + ".json.tmp")
         json.dump(evidence, open(tmp, "w"), indent=1, ensure_ascii=False)
-        os.replace(tmp, os.path.join(ROOT, "evidence", pid + ".json"))
+        os.replace(tmp, os.path.join(evdir, pid + ".json"))
     if violations:
         for j, dst, msg in violations:
             print("VIOLATION property=%s replay=%s" % (pid, dst))
